@@ -330,7 +330,7 @@ func init() {
 			run(sc, act)
 			return r.Finish()
 		}
-		n := 400
+		n := 1500
 		if thorough() {
 			n = 6000
 		}
